@@ -182,6 +182,54 @@ def gen_case(rng):
 # ------------------------------------------------------------------ running
 
 
+def _install_prune_observer(sink):
+    """Swap `incremental_publisher.WorkQueue` (a module-level name, from the outside) for a subclass
+    that *observes* `_prune_empty_groups`: it records when a group is dropped as empty (pending == 0)
+    although it still holds a completed task whose value has not been delivered, because the task also
+    belongs to another group that is still in the graph.  Used only to fingerprint the known finding
+    `workqueue-prunes-promoted-group-with-undelivered-shared-task`; it never changes behaviour.
+    Returns a function restoring the original class."""
+    from graphql.execution.incremental import incremental_publisher as ip
+
+    base = ip.WorkQueue
+
+    class ObservingWorkQueue(base):
+        def _prune_empty_groups(self, new_groups, non_empty_new_groups=None):
+            try:
+                group_nodes = self._group_nodes  # noqa: SLF001
+                task_nodes = self._task_nodes  # noqa: SLF001
+                for group in new_groups:
+                    node = group_nodes.get(group)
+                    if node is None or node.pending or not node.tasks:
+                        continue
+                    for task in node.tasks:
+                        value = getattr(task_nodes.get(task), "value", None)
+                        data = getattr(value, "data", None)
+                        if not isinstance(data, dict):
+                            continue
+                        if not any(o is not group and o in group_nodes for o in task.groups):
+                            continue
+                        base_path = list(getattr(value, "path", []) or [])
+                        gp = getattr(group, "path", None)
+                        sink.append(
+                            {
+                                "group_path": gp.as_list() if gp else [],
+                                "group_label": getattr(group, "label", None),
+                                "produced": [base_path + [k] for k in data],
+                            }
+                        )
+            except Exception:  # noqa: BLE001  (observation must never change behaviour)
+                pass
+            return super()._prune_empty_groups(new_groups, non_empty_new_groups)
+
+    ip.WorkQueue = ObservingWorkQueue
+
+    def restore():
+        ip.WorkQueue = base
+
+    return restore
+
+
 def run_case(case, max_steps=200000):
     """Returns (initial_formatted | None, [subsequent formatted], info)."""
     from graphql import parse
@@ -232,7 +280,8 @@ def run_case(case, max_steps=200000):
             return later(v, d)
         return v
 
-    info = {"hang": False, "error": None}
+    info = {"hang": False, "error": None, "pruned_undelivered": []}
+    restore = _install_prune_observer(info["pruned_undelivered"])
 
     async def main():
         res = experimental_execute_incrementally(
@@ -276,6 +325,7 @@ def run_case(case, max_steps=200000):
                 break
         return init, subs, info
     finally:
+        restore()
         try:
             pend = [t for t in asyncio.all_tasks(loop) if not t.done()]
             for t in pend:
@@ -300,7 +350,7 @@ class Interner:
         return self.m[x]
 
 
-def enc_stream(case, init, subs):
+def enc_stream(case, init, subs, want_ids=False):
     """`proto 1 1 PARENTS J PAYLOADS` line for a complete response stream."""
     keys, leaves, labels, ids = Interner(), Interner(), Interner(), Interner()
 
@@ -370,7 +420,35 @@ def enc_stream(case, init, subs):
     toks += [len(pls)]
     for pl in pls:
         toks += [1 if pl.get("hasNext") else 0] + enc_pending(pl) + enc_inc(pl) + enc_completed(pl)
+    if want_ids:
+        return "proto " + " ".join(str(t) for t in toks), {v: k for k, v in ids.m.items()}
     return "proto " + " ".join(str(t) for t in toks)
+
+
+KNOWN_PRUNE_FP = "workqueue-prunes-promoted-group-with-undelivered-shared-task"
+
+
+def classify_p3b(verdict, id_names, init, subs, pruned):
+    """Is this P3b verdict the known work-queue finding?  Only if the pruning of a promoted group with
+    an undelivered shared task was *observed in this very run* and the rejected entry's pending path
+    lies inside data that this undelivered task produces."""
+    try:
+        num = int(verdict.split("id=")[1])
+    except Exception:  # noqa: BLE001
+        return False
+    name = id_names.get(num)
+    target = None
+    for pl in [init] + list(subs):
+        for p in pl.get("pending") or []:
+            if p["id"] == name:
+                target = list(p.get("path") or [])
+    if target is None:
+        return False
+    for ev in pruned or ():
+        for prod in ev.get("produced", ()):
+            if target[: len(prod)] == list(prod):
+                return True
+    return False
 
 
 def stats_of(init, subs):
